@@ -150,3 +150,50 @@ if __name__ == "__main__":
     cfgs = sys.argv[1:] or ["default", "async"]
     for c in cfgs:
         print(build_facts(c, quiet=False))
+
+
+def build_fixture_facts(quiet=True):
+    """Facts of the positive-fixture crate /verif/fixtures (cached by its own hash + driver hash)."""
+    fdir = os.path.join(VERIF, "fixtures")
+    h = hashlib.sha256()
+    for rel in ("src/lib.rs", "Cargo.toml"):
+        with open(os.path.join(fdir, rel), "rb") as f:
+            h.update(f.read())
+    with open(os.path.join(VERIF, "driver", "src", "main.rs"), "rb") as f:
+        h.update(f.read())
+    out = os.path.join(CACHE, "facts", "fixture-" + h.hexdigest()[:16] + ".json")
+    if os.path.exists(out):
+        return out
+    os.makedirs(os.path.dirname(out), exist_ok=True)
+    lock = open(os.path.join(CACHE, "lock.fixture"), "w")
+    fcntl.flock(lock, fcntl.LOCK_EX)
+    try:
+        if os.path.exists(out):
+            return out
+        ensure_driver()
+        tdir = os.path.join(CACHE, "target", "fixture")
+        for fp in glob.glob(os.path.join(tdir, "debug", ".fingerprint", "stretto_fixture-*")):
+            shutil.rmtree(fp, ignore_errors=True)
+        tmp_out = out + ".run%d" % os.getpid()
+        env = dict(os.environ)
+        env.update({
+            "LD_LIBRARY_PATH": os.path.join(sysroot(), "lib") + ":" + env.get("LD_LIBRARY_PATH", ""),
+            "RUSTFLAGS": "-Zmir-opt-level=0 -Awarnings",
+            "RUSTC_WORKSPACE_WRAPPER": DRIVER,
+            "CARGO_TARGET_DIR": tdir,
+            "CARGO_NET_OFFLINE": "true",
+            "STRETTO_FACTS_OUT": tmp_out,
+            "STRETTO_FACTS_CONFIG": "fixture",
+            "STRETTO_FACTS_CRATE": "stretto_fixture",
+            "STRETTO_FACTS_OPT": "0",
+        })
+        env.pop("RUSTC_WRAPPER", None)
+        r = subprocess.run(["cargo", "+nightly", "check", "--offline", "--lib"], cwd=fdir, env=env, stdout=subprocess.PIPE, stderr=subprocess.STDOUT, text=True)
+        if r.returncode != 0 or not os.path.exists(tmp_out):
+            sys.stderr.write(r.stdout[-3000:])
+            raise RuntimeError("fixture crate: fact extraction failed")
+        os.replace(tmp_out, out)
+        return out
+    finally:
+        fcntl.flock(lock, fcntl.LOCK_UN)
+        lock.close()
